@@ -11,6 +11,8 @@ import (
 	"errors"
 	"fmt"
 	"os"
+	"os/exec"
+	"strings"
 	"sync"
 	"testing"
 	"unsafe"
@@ -43,14 +45,19 @@ func TestVerifV2Conc(t *testing.T) {
 	var inputs [][]byte
 	for _, b := range base {
 		inputs = append(inputs, b, vt.editWords(c, b, 0.03), append(append(vt.oovBlock(c, 2), b...), vt.oovBlock(c, 2)...),
-			append(append([]byte("This work is in the public domain.\n"), b...), []byte("\nAll rights reserved.\n")...)) // the tiny documents are candidates of many concurrent calls
+			append(append([]byte("This work is in the public domain.\nquuxification frobnicated snarkly wibbling blorptastic\n"), b...), []byte("\nAll rights reserved.\n")...)) // the tiny documents are candidates of many concurrent calls
 	}
 	inputs = append(inputs, []byte("This work is in the public domain.\nAll rights reserved by nobody.\n"))
+	// words that are in the dictionary but in no corpus document (Normalize registers what it reads): concurrent calls
+	// meet them for the first time together
+	novel := "quuxification frobnicated snarkly wibbling blorptastic "
+	inputs = append(inputs, append([]byte(novel+"\n"), base[2]...), append(append([]byte(nil), base[3]...), []byte("\n"+novel+novel+"\n")...))
 	n := vuEnvInt("VERIF_GOROUTINES", 8)
 	rounds := vuEnvInt("VERIF_ROUNDS", 3)
 	// sequential reference on a SEPARATE instance: the shared classifier meets its first calls concurrently
 	// (anything built lazily on first use would be built by racing goroutines)
 	refc := vt.build("c09ref", 0.8, docs)
+	refc.c.Normalize([]byte(novel + " and some more unheardofwordage"))
 	for i, in := range inputs {
 		vt.match(refc, in, v2MatchOpts{memo: fmt.Sprintf("c09|%d", i)})
 	}
@@ -92,6 +99,9 @@ func TestVerifV2Conc(t *testing.T) {
 		}
 		mu.Unlock()
 		_ = doc
+	}
+	for _, cc := range []*v2C{c, ct} {
+		cc.c.Normalize([]byte(novel + " and some more unheardofwordage"))
 	}
 	var emu sync.Mutex
 	for r := 0; r < rounds; r++ {
@@ -136,8 +146,87 @@ func TestVerifV2Conc(t *testing.T) {
 		wg.Wait()
 	}
 	VerifSink = nil
+	v2AloneVsConcurrent(vt)
 	vt.emit(map[string]interface{}{"ev": "diffcalls", "shared": shared, "private": private})
 	if os.Getenv("VERIF_DEBUG") != "" {
 		fmt.Fprintf(os.Stderr, "diffcalls shared=%d private=%d\n", shared, private)
+	}
+}
+
+// ---------------------------------------------------------------------------------------------
+// "what it returns when run alone": each of a few inputs is matched in a process of its own (this test binary, run again),
+// then all of them concurrently in this process; the texts use the same list markers at the start of a line in one input
+// and in the middle of a line in another, the same words capitalised and not -- whatever a call may remember.
+func v2AloneCorpus() (*Classifier, [][]byte) {
+	c := NewClassifier(0.8)
+	clauses := "Terms of use\na. You may copy the software and its documentation.\nb. You may modify the software for your own use.\nc. You may not remove this notice from any copy.\nii. Nothing in these terms grants trademark rights.\n"
+	c.AddContent("License", "Lettered", "license.txt", []byte(clauses))
+	for _, d := range v2Corpus() {
+		if d.Key == "License/MIT/pristine.txt" || d.Key == "License/ISC/license.txt" {
+			c.AddContent(d.Cat, d.Name, d.Variant, d.Data)
+		}
+	}
+	ins := [][]byte{
+		[]byte("zzqxv qqzzk\n" + clauses + "xqzvv\n"),
+		[]byte("As described in section a. above and clause b. below, subject to c. and ii. of the terms of use you may copy the software and its documentation.\n"),
+		[]byte(strings.ToUpper(clauses)),
+		[]byte("see A. and B. and C. of the TERMS OF USE; you may copy the software\n" + clauses),
+	}
+	return c, ins
+}
+
+func v2AloneShow(r Results) string {
+	s := fmt.Sprintf("total=%d", r.TotalInputLines)
+	for _, m := range r.Matches {
+		s += fmt.Sprintf(" [%s/%s %016x %d-%d %d-%d]", m.MatchType, m.Name, mathFloat64bits(m.Confidence), m.StartLine, m.EndLine, m.StartTokenIndex, m.EndTokenIndex)
+	}
+	return s
+}
+
+func TestVerifV2Alone(t *testing.T) {
+	i := vuEnvInt("VERIF_ALONE", -1)
+	if i < 0 {
+		t.Skip("helper of TestVerifV2Conc")
+	}
+	c, ins := v2AloneCorpus()
+	fmt.Printf("ALONE:%s\n", v2AloneShow(c.Match(ins[i])))
+}
+
+func v2AloneVsConcurrent(vt *v2T) {
+	_, ins := v2AloneCorpus()
+	alone := make([]string, len(ins))
+	for i := range ins {
+		cmd := exec.Command(os.Args[0], "-test.run=^TestVerifV2Alone$", "-test.count=1")
+		cmd.Env = append(os.Environ(), fmt.Sprintf("VERIF_ALONE=%d", i), "VERIF_OUT=")
+		b, err := cmd.CombinedOutput()
+		for _, ln := range strings.Split(string(b), "\n") {
+			if strings.HasPrefix(ln, "ALONE:") {
+				alone[i] = strings.TrimPrefix(ln, "ALONE:")
+			}
+		}
+		if alone[i] == "" {
+			vt.emit(map[string]interface{}{"ev": "skip", "why": fmt.Sprintf("run-alone helper gave no result: %v %s", err, string(b))})
+			return
+		}
+	}
+	c, _ := v2AloneCorpus()
+	var mu sync.Mutex
+	for round := 0; round < 3; round++ {
+		var wg sync.WaitGroup
+		for g := 0; g < 8; g++ {
+			wg.Add(1)
+			go func(g int) {
+				defer wg.Done()
+				for k := range ins {
+					i := (g + k) % len(ins)
+					if got := v2AloneShow(c.Match(ins[i])); got != alone[i] {
+						mu.Lock()
+						vt.emit(map[string]interface{}{"ev": "fault", "why": fmt.Sprintf("input %d: among concurrent calls %s, in a process of its own %s", i, got, alone[i])})
+						mu.Unlock()
+					}
+				}
+			}(g)
+		}
+		wg.Wait()
 	}
 }
